@@ -24,7 +24,10 @@ pub struct Slot {
 }
 
 pub struct Snap {
-    pub a: Array,
+    /// a clone kept alive on purpose (an alias the program holds), or None when the snapshot watches one of the
+    /// program's own handles in place (`node`) - without adding a reference of the monitor's own to the buffer
+    pub a: Option<Array>,
+    pub node: usize,
     pub dims: Vec<usize>,
     pub bits: Vec<u64>,
     pub kind: &'static str,
@@ -90,7 +93,12 @@ impl Hist {
         };
         let arrays = guard(|| eval_corgi(&h.st.p))?;
         for (i, a) in arrays.into_iter().enumerate() {
-            h.register(&a, "leaf");
+            // every other leaf is watched in place, the others through a kept clone
+            if i % 3 != 0 {
+                h.register_in_place(i, &a, "leaf");
+            } else {
+                h.register(&a, "leaf");
+            }
             h.handles.push(Some(a));
             h.log.push(format!("n{} = leaf", i));
         }
@@ -105,7 +113,14 @@ impl Hist {
 
     pub fn register(&mut self, a: &Array, kind: &'static str) {
         if self.snapshots_on {
-            self.registry.push(Snap { a: a.clone(), dims: a.dimensions().to_vec(), bits: bits(a), kind, born: self.step });
+            self.registry.push(Snap { a: Some(a.clone()), node: usize::MAX, dims: a.dimensions().to_vec(), bits: bits(a), kind, born: self.step });
+        }
+    }
+
+    /// watch the program's own handle of `node` without cloning it (reference counts stay what the program made them)
+    pub fn register_in_place(&mut self, node: usize, a: &Array, kind: &'static str) {
+        if self.snapshots_on {
+            self.registry.push(Snap { a: None, node, dims: a.dimensions().to_vec(), bits: bits(a), kind, born: self.step });
         }
     }
 
@@ -209,7 +224,11 @@ impl Hist {
                     if let Err((k, d)) = compare(a.dimensions(), &vals(&a), want, if exact { Rule::Exact } else { Rule::Tol(maxmag) }) {
                         self.fail(&format!("build-{}", k), format!("node n{}: {}", idx, d));
                     }
-                    self.register(&a, if is_alias { "alias" } else { "result" });
+                    if idx % 3 != 0 {
+                        self.register_in_place(idx, &a, if is_alias { "alias" } else { "result" });
+                    } else {
+                        self.register(&a, if is_alias { "alias" } else { "result" });
+                    }
                     self.handles.push(Some(a));
                     self.slot.push(None);
                     self.reached_before.push(false);
@@ -529,12 +548,19 @@ impl Hist {
     pub fn verify_snapshots(&mut self) {
         let mut fails = vec![];
         for s in &self.registry {
+            let a: &Array = match &s.a {
+                Some(a) => a,
+                None => match self.handles.get(s.node).and_then(|h| h.as_ref()) {
+                    Some(h) => h,
+                    None => continue, // the program dropped (or replaced) this handle: nothing left to observe
+                },
+            };
             self.snapshot_checks += 1;
-            if s.a.dimensions() != &s.dims[..] {
-                fails.push(format!("a {} handle registered at step {} changed dimensions {:?} -> {:?}", s.kind, s.born, s.dims, s.a.dimensions()));
-            } else if bits(&s.a) != s.bits {
+            if a.dimensions() != &s.dims[..] {
+                fails.push(format!("a {} handle registered at step {} changed dimensions {:?} -> {:?}", s.kind, s.born, s.dims, a.dimensions()));
+            } else if bits(a) != s.bits {
                 let old: Vec<f64> = s.bits.iter().map(|b| f64::from_bits(*b)).collect();
-                fails.push(format!("a {} handle registered at step {} changed values {} -> {}", s.kind, s.born, short(&old), short(&vals(&s.a))));
+                fails.push(format!("a {} handle registered at step {} changed values {} -> {}", s.kind, s.born, short(&old), short(&vals(a))));
             }
         }
         for f in fails.into_iter().take(2) {
